@@ -22,6 +22,9 @@ pub enum VKind {
     Missing,
     /// the process died (abort) while running this program
     Abort,
+    /// rejected by the reference model but explained by the family's weakened model = the named,
+    /// recorded finding
+    Known(String),
     /// extra monitors
     Other(String),
 }
@@ -195,10 +198,13 @@ pub fn check_program<F: Family>(idx: usize, prog: &Program<F>, mode: &Mode) -> P
     };
     let mut impl_outcomes: BTreeSet<Outcome<F::Res>> = BTreeSet::new();
     let mut mc: MCache<F> = MCache::new(prog, false);
+    let weakening = F::weakening(&prog.cfg);
+    let mut mc_weak: Option<MCache<F>> = weakening.map(|_| with_weak(true, || MCache::new(prog, false)));
     let mut viols: Vec<Violation> = Vec::new();
     let mut validated = 0u64;
     let mut sample: Option<serde_json::Value> = None;
     let maxv = mode.max_violations_per_program;
+    let mut known_hits = 0usize;
     let r = explore_program::<F>(&arc, opts, mode.max_execs, |rec, _ex| {
         let tc = std::time::Instant::now();
         let cr = cosim(prog, &mut mc, rec, mode.check_enabled);
@@ -230,7 +236,29 @@ pub fn check_program<F: Family>(idx: usize, prog: &Program<F>, mode: &Mode) -> P
             }
         }
         if let Some(f) = &cr.fail {
-            if mode.sound && viols.len() < maxv {
+            // does the weakened model (reference + recorded defect) explain this execution?
+            let mut explained = false;
+            if let (Some(mw), Some(name)) = (mc_weak.as_mut(), weakening) {
+                let cw = with_weak(true, || cosim(prog, mw, rec, mode.check_enabled));
+                if cw.fail.is_none() {
+                    explained = true;
+                    if mode.sound && known_hits < 2 {
+                        known_hits += 1;
+                        viols.push(Violation {
+                            kind: VKind::Known(name.to_string()),
+                            culprit: name.to_string(),
+                            family: F::NAME.into(),
+                            program_idx: idx,
+                            program: desc.clone(),
+                            op_kinds: kinds.clone(),
+                            what: format!("{} [ending observed: {:?}] — explained by the weakened model", f.what, rec.raw_ending),
+                            alts: alts_to_strings(&rec.path),
+                            choices: rec.path.iter().map(|n| n.idx).collect(),
+                        });
+                    }
+                }
+            }
+            if !explained && mode.sound && viols.len() < maxv + 2 {
                 let kind = match f.kind {
                     FailKind::Ending => VKind::Ending,
                     FailKind::Enabled => VKind::Enabled,
